@@ -218,7 +218,7 @@ def e_bool(ctx, depth=0):
     if k == 6:
         return both('({} or {})', '({} || {})', 'bool', e_bool(ctx, depth + 1), e_bool(ctx, depth + 1))
     if k == 7:
-        return both('(not {})', '(!{})', 'bool', e_bool(ctx, depth + 1))
+        return both('(not ({}))', '(!({}))', 'bool', e_bool(ctx, depth + 1))
     if k == 8:
         return both('({} in {})', '{1}.includes({0})', 'bool', strlit(ctx, ['a', 'b', ' ', '1', ',']), sfield(ctx))
     if k == 9:
@@ -274,6 +274,8 @@ def e_any(ctx, hashable=True):
     if k == 9:
         return both('({} if {} else {})', '({1} ? {0} : {2})', 'any', e_str(ctx, 1), e_bool(ctx, 1), e_int(ctx, 1))
     if k == 10:
+        if hashable and ctx.js:
+            return strlit(ctx)   # a bare None/null item is not common syntax (rbql-js reads `null` as an identifier when naming columns)
         if hashable:
             return mk('None', 'null', 'any')
         return both('[{}, {}]', '[{}, {}]', 'list', field(ctx), strlit(ctx))
